@@ -114,6 +114,8 @@ pub struct Harness {
     pub http_rng: crate::rng::Rng,
     /// JWTs revoked by a logout earlier in the run: refused for good, also after restarts
     pub revoked_http_tokens: Vec<String>,
+    /// errors are being injected on the state journal (C06's journal-fault arm)
+    pub journal_faults: bool,
     pub log: Vec<String>,
     pub verbose: bool,
     pub key_affinity: BTreeMap<(u32, u32, Vec<u8>, u32), u32>,
@@ -224,6 +226,7 @@ impl Harness {
             http0: None,
             http_twins: BTreeMap::new(),
             revoked_http_tokens: Vec::new(),
+            journal_faults: false,
             http_rng: crate::rng::Rng::substream(0x4854_5450, "http-route"),
             log: Vec::new(),
             verbose: std::env::var("VERIF_VERBOSE").is_ok(),
@@ -277,6 +280,10 @@ impl Harness {
         let mut tag: String = tag.into();
         let mut prop = prop;
         let mut oracle = oracle;
+        if self.journal_faults && self.sim.inner.fs.borrow().fired.iter().any(|f| f.0 == crate::rt::PathClass::StateLog) {
+            // everything seen after an injected journal error carries the cause class
+            tag.push_str("@journal_fault");
+        }
         if !self.opts.props.contains(prop) && !self.opts.props.contains("*") {
             if let Some(owner) = self.borrowed(prop) {
                 // e.g. C13: what the SDK returns must equal what the model predicts from what the SDK was asked
